@@ -471,6 +471,67 @@ def file_history(ctx, rng, idx):
         shutil.rmtree(work, ignore_errors=True)
 
 
+def rewritten_path_history(ctx, rng, idx):
+    """a result / reference pair stored under names whose extension says nothing about the format (the readers sniff the VTK
+    flavour): the files are compared, REPLACED at the same paths by data of another VTK flavour, and compared again, several
+    times in one process; every verdict must be the one obtained for the same bytes under fresh, properly named paths (and,
+    for a sample, in another process): nothing learnt about a path in an earlier comparison may leak into a later one"""
+    ext = rng.choice([".out", ".dat", ".result", ".data", ""])
+    work = os.path.join(str(ctx.workdir), f"w{idx}")
+    os.makedirs(work)
+    try:
+        res, ref = os.path.join(work, "res" + ext), os.path.join(work, "ref" + ext)
+        flavours = [rng.choice(["vtu", "vti", "vtr"]) for _ in range(rng.randint(2, 4))]
+        if len(set(flavours)) == 1:
+            flavours[-1] = {"vtu": "vti", "vti": "vtr", "vtr": "vtu"}[flavours[0]]
+        canon = {"rewritten_path_history": idx, "extension": ext, "flavours": flavours}
+        verdicts = []
+        for step, fl in enumerate(flavours):
+            differ = rng.random() < 0.4
+            cfg = V.Cfg(rng.choice(["ascii", "binary", "appended-raw"]))
+            named = []
+            for nm, target in (("res", res), ("ref", ref)):
+                bump = 0.25 if (differ and nm == "ref") else 0.0
+                proper = os.path.join(work, f"{nm}_{step}.{fl}")
+                if fl == "vtu":
+                    pts = [[0.0, 0.0, 0.0], [1.0, 0.0, 0.0], [1.0, 1.0, 0.0], [0.0, 1.0, 0.0]]
+                    V.write_vtu(proper, pts, [(9, [0, 1, 2, 3])], [("p", "Float64", 1, [1.0 + bump, 2.0, 3.0, 4.0])], [], cfg)
+                elif fl == "vti":
+                    V.write_vti(proper, [0, 2, 0, 1, 0, 0], [0.0, 0.0, 0.0], [0.5, 1.0, 1.0], None,
+                                [("p", "Float64", 1, [1.0 + bump, 2.0, 3.0, 4.0, 5.0, 6.0])], [], cfg)
+                else:
+                    V.write_vtr(proper, [0, 1, 0, 1, 0, 0], [[0.0, 1.0], [0.0, 2.0], [0.0]],
+                                [("p", "Float64", 1, [1.0 + bump, 2.0, 3.0, 4.0])], [], cfg)
+                shutil.copyfile(proper, target)
+                named.append(proper)
+            with warnings.catch_warnings():
+                warnings.simplefilter("ignore")
+                got = run_cli(["file", res, ref, "--verbosity", "0"])[0]
+                want = run_cli(["file", named[0], named[1], "--verbosity", "0"])[0]
+            verdicts.append([fl, got, want])
+            ctx.count(f"rewritten path:{fl}:{'fail' if want else 'pass'}")
+            if got != want:
+                ctx.violation("E4", f"step {step}: the files at {os.path.basename(res)!r} / {os.path.basename(ref)!r} now hold {fl} data and "
+                                    f"compare with exit code {got}; the same bytes under properly named paths give {want} "
+                                    f"(contents of these paths in the earlier steps: {flavours[:step]})", canon, verdicts=verdicts)
+                break
+        if idx % 5 == 0 and verdicts and verdicts[-1][1] == verdicts[-1][2]:
+            env = dict(os.environ, PYTHONHASHSEED=str(2000 + idx), PYTHONPATH=str(lib.REPO))
+            pr = subprocess.run([sys.executable, "-c", SECOND_PROCESS, res, ref], capture_output=True, text=True, env=env, timeout=120)
+            try:
+                other = json.loads(pr.stdout.strip().splitlines()[-1])["exit"]
+            except Exception:  # noqa: BLE001
+                other = f"failed: {pr.stderr[-200:]}"
+            ctx.count("second process")
+            if other != verdicts[-1][1]:
+                ctx.violation("E4", f"another process gives exit code {other} for the files as they are now, this process {verdicts[-1][1]} "
+                                    f"(after comparing {flavours[:-1]} at the same paths)", canon, verdicts=verdicts)
+        ctx.case(canon, True, sample={"rewritten_path_history": verdicts})
+        ctx.traces_validated += 1
+    finally:
+        shutil.rmtree(work, ignore_errors=True)
+
+
 def run(ctx):
     ctx.prove()
     q = ctx.tier == "quick"
@@ -479,6 +540,8 @@ def run(ctx):
         run_history(ctx, rng, i)
     for i in range(60 if q else 1500):
         file_history(ctx, rng, i)
+    for i in range(25 if q else 600):
+        rewritten_path_history(ctx, rng, i)
     ctx.extra["write_sites_modelled"] = ["_get_fixed_size_corner_indices_sorted", "_merge (connectivity remap)", "fuzzy_equal",
                                          "get_fuzzy_lex_sorting_index_map", "_subtract (fill nan)", "extend_space_dimension_to",
                                          "to_meshio pixel/voxel reordering"]
@@ -487,7 +550,8 @@ def run(ctx):
                 "object re-used over all fields, structured mesh points/connectivity access) on two shared MeshFields objects "
                 "(equal up to relabeling / a field differs / a point moved; optional orphan points; pixel and voxel cells included); "
                 "CLI runs on files in every encoding with hashes, mtimes and directory listings; a second process with another "
-                "PYTHONHASHSEED for a sample. every case is non-trivial")
+                "PYTHONHASHSEED for a sample; result / reference files under names without a telling extension that are replaced by data of "
+                "another VTK flavour between comparisons in one process. every case is non-trivial")
     return ctx.finish(assumptions=["absence of writes is PROVED only for the write sites transcribed in Model/Heap.v; for every other "
                                    "library/numpy call it is OBSERVED by byte snapshots on the generated histories",
                                    "process independence is sampled (one extra process per 10 file histories)"],
